@@ -253,6 +253,12 @@ def handle (j : Json) : Except String Json := do
     match normalize r with
     | .ok v => pure (Json.mkObj [("ok", valToJson v)])
     | .error e => pure (errJson e)
+  | "ssplit" =>
+    -- the stream framing of yaml.go / toml.go: where the model cuts a text into parts
+    let fmt ← j.getObjValAs? String "format"
+    let lines := strList (j.getObjValD "lines")
+    let parts := splitAt (if fmt == "toml" then sepToml else sepYaml) lines
+    pure (Json.mkObj [("ok", Json.arr (parts.map fun p => Json.arr (p.map Json.str).toArray).toArray)])
   | "parseref" =>
     let s ← j.getObjValAs? String "s"
     match parseRef s with
